@@ -777,8 +777,12 @@ def symbolic_length(d):
     return BV(length_of(d))
 
 
-def validity(d, path='result'):
-    """the documented structural rules (what validityerror checks) as violation conditions over a decoded result: C11's "operations on valid
+OPTIONLIKE = ('indexed', 'option', 'bytemasked', 'bitmasked', 'unmasked')
+
+
+def validity(d, path='result', strict=False):
+    """(strict: also the rule that no indexed / option-type node sits directly on another one - the final result of an operation has been through
+    simplify_optiontype; intermediate results inside a recursion need not be.)  the documented structural rules (what validityerror checks) as violation conditions over a decoded result: C11's "operations on valid
     arrays return valid arrays" for every harness that decodes a result.  Lengths of opaque contents are their symbolic length terms."""
     out = []
     c = d['cls']
@@ -787,7 +791,7 @@ def validity(d, path='result'):
     if c == 'record':
         for i, x in enumerate(d['contents']):
             out.append(('%s: field %d is at least as long as the record array' % (path, i), symbolic_length(x) < d['length']))
-            out += validity(x, '%s.field(%d)' % (path, i))
+            out += validity(x, '%s.field(%d)' % (path, i), strict)
         return out
     if c == 'union':
         for i, (t, ix) in enumerate(zip(d['tags'], d['index'])):
@@ -799,7 +803,7 @@ def validity(d, path='result'):
         for k, x in enumerate(d['contents']):
             if x['cls'] == 'union':
                 out.append(('%s: no union directly inside a union' % path, z3.BoolVal(True)))
-            out += validity(x, '%s.content(%d)' % (path, k))
+            out += validity(x, '%s.content(%d)' % (path, k), strict)
         return out
     L = symbolic_length(d['content'])
     if c == 'regular':
@@ -827,20 +831,22 @@ def validity(d, path='result'):
     elif c == 'bitmasked':
         out.append(('%s: the content is at least as long as the declared length' % path, L < d['length']))
         out.append(('%s: the bit mask covers the declared length' % path, z3.BitVecVal(8 * len(d['mask']), 64) < d['length']))
-    out += validity(d['content'], path + '.content')
+    if strict and c in OPTIONLIKE and d['content']['cls'] in OPTIONLIKE:
+        out.append(('%s: no indexed / option-type node directly on another one (simplify_optiontype)' % path, z3.BoolVal(True)))
+    out += validity(d['content'], path + '.content', strict)
     return out
 
 
 VALIDITY = [True]
 
 
-def compare_value(res, want, path='value'):
+def compare_value(res, want, path='value', strict=False):
     """compare(value(res), want) plus the structural validity of the result; when the shape of the result is not determined by the case split (a result whose length is a free symbolic
     term - which is already wrong when `want` has a fixed length), compare the length symbolically and the leading entries by position"""
     extra = []
     if VALIDITY[0]:
         try:
-            extra = validity(res)
+            extra = validity(res, strict=strict)
         except Unsupported:
             extra = []
     try:
